@@ -454,9 +454,88 @@ func c01signReaders(c *Ctx, r *Result) {
 				"stored "+from.Name()+" bits are read as "+to.Name()+" only when the datatype's sign flag is set (otherwise Uint values above the signed maximum come back negative)")
 		})
 	}
-	if n < 4 {
-		r.Errorf("C01.1: only %d signed reinterpretation sites found in the numeric readers (expected 4)", n)
+	decodes := c01signWidth(c, r)
+	if n < 4 && decodes < 4 {
+		r.Errorf("C01.1: only %d signed reinterpretation sites and %d fixed-point decode sites found in the numeric readers (expected 4)", n, decodes)
 	}
+}
+
+// c01signWidth: a stored N-bit integer becomes signed at width N. From every UintN decode in the numeric readers the value
+// is followed through conversions, phis and helper parameters to the float conversion; the first conversion to a signed
+// integer type on the way must have N bits (uint32 -> uint64 -> int64 reinterprets bit 63, not bit 31: negative int32
+// values come back as value + 2^32). Returns the number of decode sites followed.
+func c01signWidth(c *Ctx, r *Result) int {
+	decodes := 0
+	for _, name := range []string{"core.convertToFloat64", "hdf5.convertToFloat64", "hdf5.convertBytesToInt32AsFloat64", "hdf5.convertBytesToInt64AsFloat64"} {
+		fn := c.FnOpt(name)
+		if fn == nil {
+			continue
+		}
+		instrs(fn, func(in ssa.Instruction) {
+			call, ok := in.(*ssa.Call)
+			if !ok {
+				return
+			}
+			cn := c.calleeName(call)
+			width := 0
+			switch {
+			case strings.HasSuffix(cn, ".Uint16"):
+				width = 16
+			case strings.HasSuffix(cn, ".Uint32"):
+				width = 32
+			case strings.HasSuffix(cn, ".Uint64"):
+				width = 64
+			}
+			if width == 0 {
+				return
+			}
+			decodes++
+			bad := ""
+			seen := map[ssa.Value]bool{}
+			var walk func(v ssa.Value, depth int)
+			walk = func(v ssa.Value, depth int) {
+				if seen[v] || depth > 10 || v.Referrers() == nil {
+					return
+				}
+				seen[v] = true
+				for _, ref := range *v.Referrers() {
+					switch x := ref.(type) {
+					case *ssa.Convert:
+						b, ok := x.Type().Underlying().(*types.Basic)
+						if !ok {
+							continue
+						}
+						switch {
+						case b.Info()&types.IsFloat != 0:
+							// reached the result unsigned (or already signed): fine
+						case b.Info()&types.IsInteger != 0 && b.Info()&types.IsUnsigned == 0:
+							if basicBits(b) != width {
+								bad = c.InstrPos(x) + " (" + b.Name() + " applied to a " + itoa(width) + "-bit value)"
+							}
+							// once signed at the right width, widening is value-preserving: stop following
+						default:
+							walk(x, depth+1)
+						}
+					case *ssa.Phi:
+						walk(x, depth+1)
+					case *ssa.Call:
+						g := x.Call.StaticCallee()
+						if g == nil || g.Blocks == nil || !inModule(fnPkgPath(g)) {
+							continue
+						}
+						for i, a := range x.Call.Args {
+							if a == v && i < len(g.Params) {
+								walk(g.Params[i], depth+1)
+							}
+						}
+					}
+				}
+			}
+			walk(call, 0)
+			r.Check(bad == "", "C01.1", c.Name(fn)+"#signed-at-stored-width#"+itoa(width), c.InstrPos(call), "a stored "+itoa(width)+"-bit integer is reinterpreted as signed at "+itoa(width)+" bits before it is widened "+bad)
+		})
+	}
+	return decodes
 }
 
 // c01chunkKey: writer multiplies, reader divides.
@@ -1293,4 +1372,17 @@ func c01zeroPadding(c *Ctx, r *Result, fn *ssa.Function, rule string) {
 	if n == 0 {
 		r.Undec(rule, c.Name(fn)+"#padding-buffer-is-zeroed", c.Pos(fn.Pos()), "no row copy found in the expansion function")
 	}
+}
+
+func init() {
+	reg := registry["C01"]
+	reg.Meta.Rules["C01.10"] = "each chunk keeps its own key: the chunk index either copies the coordinate slice it is given or is given a slice made for that chunk (one slice shared by all entries leaves every key at the last chunk's offset)"
+	reg.Rules = append(reg.Rules, func(c *Ctx, r *Result) {
+		n := c.retainedArgsFresh(r, "C01.10", "hdf5", func(n string) bool {
+			return strings.HasPrefix(n, "structures.ChunkBTreeWriter.AddChunk")
+		}, "the chunk's key coordinates")
+		if n == 0 {
+			r.Errorf("C01.10: no call of ChunkBTreeWriter.AddChunk* found in the root package")
+		}
+	})
 }
